@@ -10,6 +10,7 @@ import (
 	"regexp"
 	"strings"
 
+	"github.com/JunNishimura/Goit/internal/object"
 	"github.com/JunNishimura/Goit/internal/sha"
 	"github.com/spf13/cobra"
 )
@@ -53,6 +54,14 @@ var updateRefCmd = &cobra.Command{
 		newHash, err := sha.ReadHash(hashString)
 		if err != nil {
 			return ErrInvalidHash
+		}
+		// a branch can only point to a commit
+		newObject, err := object.GetObject(client.RootGoitPath, newHash)
+		if err != nil {
+			return ErrInvalidHash
+		}
+		if newObject.Type != object.CommitObject {
+			return fmt.Errorf("fatal: trying to write non-commit object %s to branch '%s'", hashString, args[0])
 		}
 
 		if err := client.Refs.UpdateBranchHash(client.RootGoitPath, branchName, newHash); err != nil {
